@@ -105,6 +105,51 @@ fn polynomials(rng: &mut Rng) {
     }
 }
 
+/// "no other coefficient vector has a smaller weighted sum of squares", judged directly and at any scale
+/// of the abscissae (millimetres expressed in metres, say): the fit is compared with a reference
+/// least-squares solution computed by SVD in the normalised variable u = x / s
+fn polynomials_scaled(rng: &mut Rng) {
+    use parry3d_f64::na::{DMatrix, DVector};
+    let k = rng.int(2, 6) as usize;
+    let n = k + 1 + rng.below(8);
+    let s = 10f64.powf(rng.range(-3.3, 1.3));
+    let us = abscissae(rng, n);
+    let umax = us.iter().fold(0.0f64, |a, b| a.max(b.abs()));
+    let us: Vec<f64> = us.iter().map(|u| u / umax).collect();
+    let xs: Vec<f64> = us.iter().map(|u| s * u).collect();
+    let cu: Vec<f64> = (0..k).map(|_| rng.range(-3.0, 3.0)).collect();
+    let noise = *rng.pick(&[0.0, 0.0, 1e-6, 0.3]);
+    let ys: Vec<f64> = us.iter().map(|u| eval(&cu, *u) + noise * rng.range(-1.0, 1.0)).collect();
+    let ws: Option<Vec<f64>> = if rng.chance(0.5) { Some((0..n).map(|_| rng.range(0.2, 3.0)).collect()) } else { None };
+    let w = |i: usize| ws.as_ref().map_or(1.0, |w| w[i]);
+    let mut v = Verdict::new();
+    match fit_k(k, &xs, &ys, ws.as_deref()) {
+        Err(e) => v.require(false, "poly.panics", || format!("scale {s:e}: {e}")),
+        Ok(c) => {
+            let a = DMatrix::from_fn(n, k, |i, j| w(i).sqrt() * us[i].powi(j as i32));
+            let b = DVector::from_fn(n, |i, _| w(i).sqrt() * ys[i]);
+            let reference = a.clone().svd(true, true).solve(&b, 1e-14).unwrap();
+            let fit_u: Vec<f64> = (0..k).map(|i| c[i] * s.powi(i as i32)).collect();
+            let ss = |cf: &dyn Fn(usize) -> f64| -> f64 { (0..n).map(|j| { let p: f64 = (0..k).map(|i| cf(i) * us[j].powi(i as i32)).sum(); w(j) * (p - ys[j]).powi(2) }).sum() };
+            let ss_fit = ss(&|i| fit_u[i]);
+            let ss_ref = ss(&|i| reference[i]);
+            let total: f64 = (0..n).map(|j| w(j) * ys[j] * ys[j]).sum();
+            let sv = a.svd(false, false).singular_values;
+            let cond = sv[0] / sv[k - 1];
+            let excess = (ss_fit - ss_ref) / total;
+            if std::env::var("VH_C09_TRACE").is_ok() {
+                eprintln!("k={k} s={s:e} cond={cond:e} noise={noise:e} excess={excess:e}");
+            }
+            // measured on the unchanged tree: <= 5e-15 below condition 1e3, <= 2e-9 up to 1e5 (the code solves
+            // the normal equations by inversion); a fit that loses a coefficient is at 1e-3 .. 1
+            let allowed = if cond <= 1e3 { 1e-10 } else if cond <= 1e5 { 1e-6 } else { f64::INFINITY };
+            v.require(excess <= allowed, "poly.no_other_coefficients_have_smaller_sum_of_squares",
+                || format!("K={k} scale {s:e} (condition of the normalised design matrix {cond:e}): sum of squares {ss_fit:e}, the least-squares solution has {ss_ref:e} (sum of w*y^2 = {total:e}); fit {c:?}"));
+        }
+    }
+    emit_oracle_only("fit.poly_scaled", &Tok::new(), &Tok::new(), &v);
+}
+
 fn circles(rng: &mut Rng) {
     let c = Circle2::new(rng.range(-5.0, 5.0), rng.range(-5.0, 5.0), rng.range(0.5, 5.0));
     let a0 = rng.range(0.0, 2.0 * PI);
@@ -181,6 +226,9 @@ pub fn run(rng: &mut Rng, n: usize) {
     for _ in 0..n {
         for _ in 0..4 {
             polynomials(rng);
+        }
+        for _ in 0..2 {
+            polynomials_scaled(rng);
         }
         circles(rng);
     }
